@@ -48,7 +48,7 @@ class Check(BaseCheck):
 
     def correspond(self, drv, stats):
         fails = []
-        for case in oriented_cases(self.seed + 121, 10 if self.quick else 120):
+        for case in oriented_cases(self.seed + 121, 10 if self.quick else 1200):
             v, t, sm = case["v"], case["t"], case["smoothit"]
             gen.use(case)
             stats.case(core.mesh_key(v, t, sm), cls=["class:" + case["name"], "smoothit:%d" % sm], sample=dict(name=case["name"], nv=len(v), smoothit=sm))
